@@ -469,6 +469,124 @@ func adapterForwardingRule(c *Ctx, rule string) {
 			}
 		}
 	}
+	// extension interfaces of the store handle (x, ok := kv.(I)): every implementation in the
+	// library forwards to the wrapped object's base operation with the key in position and the
+	// revision turned into the client's compare option
+	for _, f := range m.Funcs {
+		eachInstr(f, func(in ssa.Instruction) {
+			ta, ok := in.(*ssa.TypeAssert)
+			if !ok || namedOf(ta.X.Type()) != m.KVIface {
+				return
+			}
+			ext := namedOf(ta.AssertedType)
+			if ext == nil {
+				return
+			}
+			iface, ok := ext.Underlying().(*types.Interface)
+			if !ok {
+				return
+			}
+			for _, n := range m.implementers(ext) {
+				for i := 0; i < iface.NumMethods(); i++ {
+					meth := iface.Method(i).Name()
+					g := m.methodOf(n, meth)
+					if g == nil {
+						continue
+					}
+					key := fmt.Sprintf("forwarding %s.%s (extension %s)", n.Obj().Name(), meth, ext.Obj().Name())
+					var fwd *ssa.Call
+					nOps := 0
+					eachInstr(g, func(x ssa.Instruction) {
+						c2, ok := x.(*ssa.Call)
+						if !ok {
+							return
+						}
+						var recv ssa.Value
+						name := ""
+						if c2.Call.IsInvoke() {
+							name, recv = c2.Call.Method.Name(), c2.Call.Value
+						} else if sc := c2.Call.StaticCallee(); sc != nil && sc.Signature.Recv() != nil && len(c2.Call.Args) > 0 {
+							name, recv = sc.Name(), c2.Call.Args[0]
+						}
+						if recv != nil && recvIsFieldOf(recv, g.Params[0]) {
+							nOps++
+							if strings.HasPrefix(meth, name) {
+								fwd = c2
+							}
+						}
+					})
+					if fwd == nil || nOps != 1 {
+						c.viol(rule, key, firstInstr(g), "expected exactly one operation on the wrapped object, the base operation of %s; found %d operations", meth, nOps)
+						continue
+					}
+					args := fwd.Call.Args
+					if !fwd.Call.IsInvoke() {
+						args = args[1:]
+					}
+					params := g.Params[1:]
+					okKey := len(args) > 0 && len(params) > 0 && args[0] == ssa.Value(params[0])
+					// the revision parameter reaches the call through the client's LastRevision option
+					okRev := false
+					var revParam *ssa.Parameter
+					for _, p := range params {
+						if b, isB := p.Type().Underlying().(*types.Basic); isB && b.Kind() == types.Uint64 {
+							revParam = p
+						}
+					}
+					var seen func(v ssa.Value, depth int) bool
+					seen = func(v ssa.Value, depth int) bool {
+						if depth > 8 || v == nil {
+							return false
+						}
+						switch x := v.(type) {
+						case *ssa.Call:
+							if sc := x.Call.StaticCallee(); sc != nil && sc.Name() == "LastRevision" && len(x.Call.Args) == 1 && revParam != nil && x.Call.Args[0] == ssa.Value(revParam) {
+								return true
+							}
+						case *ssa.Slice:
+							return seen(x.X, depth+1)
+						case *ssa.Alloc:
+							if refs := x.Referrers(); refs != nil {
+								for _, r := range *refs {
+									if ia, ok := r.(*ssa.IndexAddr); ok {
+										if rr := ia.Referrers(); rr != nil {
+											for _, u := range *rr {
+												if st, ok := u.(*ssa.Store); ok && seen(st.Val, depth+1) {
+													return true
+												}
+											}
+										}
+									}
+								}
+							}
+						case *ssa.MakeInterface:
+							return seen(x.X, depth+1)
+						case *ssa.ChangeInterface:
+							return seen(x.X, depth+1)
+						}
+						return false
+					}
+					for _, a := range args[1:] {
+						if seen(a, 0) {
+							okRev = true
+						}
+					}
+					// results: returns exactly the call's result
+					okRet := true
+					for _, b := range liveBlocks(g) {
+						if ret, ok := b.Instrs[len(b.Instrs)-1].(*ssa.Return); ok && b != g.Recover {
+							for i := range ret.Results {
+								if !derivesFrom(returnValue(ret, i), fwd, 0) {
+									okRet = false
+								}
+							}
+						}
+					}
+					c.check(okKey && okRev && okRet, rule, key, fwd, "key forwarded in position: %v; revision parameter passed as LastRevision(rev): %v; returns the call's result: %v (without the option the conditional delete is an unconditional one)", okKey, okRev, okRet)
+				}
+			}
+		})
+	}
 	c.floor(rule, 10)
 }
 
